@@ -76,7 +76,7 @@ theorem filter_chain (iv : List Seg) (hne : ∀ sg ∈ iv, sg.so < sg.en) (hpw :
     have hne' : ∀ sg ∈ rest, sg.so < sg.en := fun sg h => hne sg (by simp [h])
     have hx := hne x (by simp)
     by_cases hov : overlaps x qs qe = true
-    · rw [List.filter_cons_of_pos hov]
+    · rw [List.filter_cons_of_pos (p := fun sg => overlaps sg qs qe) hov]
       rw [overlaps_iff] at hov
       have hxs : x.so ≤ qs := by
         obtain ⟨sg, hsg, h1, h2⟩ := hcov qs (by omega) hq
@@ -113,7 +113,7 @@ theorem filter_chain (iv : List Seg) (hne : ∀ sg ∈ iv, sg.so < sg.en) (hpw :
         subst hax
         exact ⟨x.so, b, Chain.cons x _ b hx hch, hxs, hb⟩
     · have hov' : ¬ overlaps x qs qe = true := hov
-      rw [List.filter_cons_of_neg hov]
+      rw [List.filter_cons_of_neg (p := fun sg => overlaps sg qs qe) hov]
       rw [overlaps_iff] at hov'
       apply ih hne' hpw.2 qs qe hq
       intro p hp1 hp2
